@@ -143,15 +143,191 @@ func c10Nest(rng *rand.Rand) string {
 	return b.String()
 }
 
+// c10Handlers: "a function or handler body sees its parameters, its own locals and the globals; shadowing leaves the outer
+// variable unchanged". Globals of random types named from a small pool, event handlers and functions whose PARAMETER and
+// LOCAL names are drawn from the same pool (so they shadow globals, also with a different type), bodies that print and
+// assign their parameters, assign globals they do not shadow, and call reporting / updating functions that read the globals
+// (a callee must see the GLOBAL, never a caller's or a handler's parameter of that name); then a random event history, after
+// every event the model and the implementation are compared on effects and on the globals dump.
+func c10Handlers(rng *rand.Rand) (string, []SemEvent) {
+	var b strings.Builder
+	w := func(f string, a ...any) { fmt.Fprintf(&b, f+"\n", a...) }
+	pool := []string{"x", "y", "k", "n", "s", "id", "val", "t", "g"}
+	types := []string{"num", "string", "bool", "[]num", "{}num", "any"}
+	lit := func(ty string) string {
+		switch ty {
+		case "num":
+			return fmt.Sprint(10 + rng.Intn(90))
+		case "string":
+			return fmt.Sprintf("%q", "g"+fmt.Sprint(rng.Intn(9)))
+		case "bool":
+			return []string{"true", "false"}[rng.Intn(2)]
+		case "[]num":
+			return fmt.Sprintf("[%d %d]", rng.Intn(9), rng.Intn(9))
+		case "{}num":
+			return fmt.Sprintf("{a:%d}", rng.Intn(9))
+		}
+		return ""
+	}
+	gtype := map[string]string{}
+	var globals []string
+	for _, i := range rng.Perm(len(pool))[:3+rng.Intn(5)] {
+		v := pool[i]
+		ty := types[rng.Intn(len(types))]
+		if rng.Intn(2) == 0 {
+			ty = "num"
+		}
+		gtype[v] = ty
+		globals = append(globals, v)
+		if ty == "any" {
+			w("%s:any\n%s = %s", v, v, lit(types[rng.Intn(5)]))
+		} else {
+			w("%s := %s", v, lit(ty))
+		}
+	}
+	w("count := 0")
+	all := strings.Join(globals, " ")
+	// update of a global of type ty through its name (inside a body that does not shadow it)
+	upd := func(v string) string {
+		switch gtype[v] {
+		case "num":
+			return v + " = " + v + " + 1"
+		case "string":
+			return v + " = " + v + " + \"!\""
+		case "bool":
+			return v + " = !" + v
+		case "[]num":
+			return v + " = " + v + " + [count]"
+		case "{}num":
+			return v + "[(sprint count)] = count"
+		}
+		return v + " = count"
+	}
+	w("func report tag:string\n    print tag count %s\nend", all)
+	w("func bump\n    count = count + 1")
+	for _, v := range globals {
+		if rng.Intn(3) == 0 {
+			w("    %s", upd(v))
+		}
+	}
+	w("    report \"bump\"\nend")
+	// a function whose parameter (and a local) carry global names; it calls report, which must print the globals
+	fp := globals[rng.Intn(len(globals))]
+	fl := pool[rng.Intn(len(pool))]
+	w("func shade %s:num\n    print \"shade\" %s\n    %s = %s * 2\n    report \"in shade\"", fp, fp, fp, fp)
+	if fl != fp {
+		w("    %s := \"local\"\n    print \"shade local\" %s %s\n    bump", fl, fl, fp)
+	}
+	w("    report \"end shade\"\nend")
+	w("shade 7\nreport \"top\"")
+	sigs := []struct {
+		name string
+		tys  []string
+	}{{"key", []string{"string"}}, {"down", []string{"num", "num"}}, {"up", []string{"num", "num"}}, {"move", []string{"num", "num"}},
+		{"animate", []string{"num"}}, {"input", []string{"string", "string"}}}
+	var hs []string
+	for _, i := range rng.Perm(len(sigs))[:2+rng.Intn(3)] {
+		h := sigs[i]
+		hs = append(hs, h.name)
+		hdr := "on " + h.name
+		var ps, pts []string
+		if rng.Intn(6) > 0 {
+			used := map[string]bool{}
+			for _, ty := range h.tys {
+				var nm string
+				for {
+					nm = pool[rng.Intn(len(pool))]
+					if rng.Intn(3) == 0 && len(globals) > 0 {
+						nm = globals[rng.Intn(len(globals))]
+					}
+					if !used[nm] {
+						break
+					}
+				}
+				used[nm] = true
+				hdr += " " + nm + ":" + ty
+				ps, pts = append(ps, nm), append(pts, ty)
+			}
+		}
+		w("%s", hdr)
+		w("    count = count + 1")
+		w("    print %q %s", h.name, strings.Join(ps, " "))
+		isParam := func(v string) bool {
+			for _, p := range ps {
+				if p == v {
+					return true
+				}
+			}
+			return false
+		}
+		declared := map[string]bool{}
+		for n := 2 + rng.Intn(4); n > 0; n-- {
+			switch rng.Intn(8) {
+			case 0:
+				w("    report \"in %s\"", h.name)
+			case 1:
+				w("    bump")
+			case 2:
+				if len(ps) > 0 { // assign a parameter: the global of that name stays
+					j := rng.Intn(len(ps))
+					if pts[j] == "num" {
+						w("    %s = %s + 1000", ps[j], ps[j])
+					} else {
+						w("    %s = %s + \"#\"", ps[j], ps[j])
+					}
+					w("    print \"param\" %s", ps[j])
+				}
+			case 3: // update a global that the handler does not shadow
+				v := globals[rng.Intn(len(globals))]
+				if !isParam(v) && !declared[v] {
+					w("    %s\n    print \"upd\" %s", upd(v), v)
+				}
+			case 4: // a local named like a global (or a fresh name), declared after using the global
+				v := pool[rng.Intn(len(pool))]
+				if !isParam(v) && !declared[v] {
+					declared[v] = true
+					if gtype[v] != "" {
+						w("    print \"before local\" %s", v)
+					}
+					w("    %s := %q\n    print \"local\" %s", v, "L"+h.name, v)
+				}
+			case 5:
+				w("    shade %d", rng.Intn(50))
+			case 6:
+				if len(ps) > 0 {
+					w("    if count %% 2 == 0\n        print \"even\" %s\n        report \"nested\"\n    end", ps[rng.Intn(len(ps))])
+				}
+			default:
+				if len(ps) > 0 && pts[0] == "num" {
+					w("    for i := range 2\n        print \"loop\" i %s\n        %s = %s + i\n    end", ps[0], ps[0], ps[0])
+				}
+			}
+		}
+		w("    report \"end %s\"", h.name)
+		w("end")
+	}
+	w("print count %s", all)
+	var evs []SemEvent
+	for n := 2 + rng.Intn(7); n > 0; n-- {
+		name := hs[rng.Intn(len(hs))]
+		evs = append(evs, SemEvent{Name: name, Params: eventPayloads[name](rng)})
+	}
+	return b.String(), evs
+}
+
 func runC10(cfg Config, r *Result) {
 	model := startSem(r)
 	if model == nil {
 		return
 	}
 	defer model.Close()
-	r.Rule = "random nestings (depth <= 4) of if/else-if/else, while, for over numeric ranges (incl. negative, fractional, empty, wrong-direction and zero steps), arrays, strings (non-ASCII) and maps, with declarations and shadowing at every level, break/return as last statement of blocks, calls to a recursive function and to a function defined later; plus random typed programs; implementation vs model on outcome, printed trace, yield count and globals; every case non-trivial; distinct = distinct program text"
+	r.Rule = "random nestings (depth <= 4) of if/else-if/else, while, for over numeric ranges (incl. negative, fractional, empty, wrong-direction and zero steps), arrays, strings (non-ASCII) and maps, with declarations and shadowing at every level, break/return as last statement of blocks, calls to a recursive function and to a function defined later; plus random typed programs; plus handler programs (globals of random types named from a small pool; event handlers and functions whose parameter and local names are drawn from the same pool and so shadow globals, bodies that print / assign their parameters, update unshadowed globals and call reporting functions that read the globals; a random history of 2-8 events, compared after every event; own oracle: same effects as the handlers rewritten as procedures and called in that order); implementation vs model on outcome, printed trace, yield count and globals; every case non-trivial; distinct = distinct program text"
 	if in, ok := replayInput(cfg); ok {
-		semCase(model, r, in["program"].(string), SemOpts{StopAt: -1, YieldBudget: 100000}, true, "")
+		evs := c10ReplayEvents(in)
+		d := semCase(model, r, in["program"].(string), SemOpts{StopAt: -1, YieldBudget: 100000, Events: evs}, true, "")
+		if len(evs) > 0 {
+			c10HandlerOracle(r, in["program"].(string), evs, d)
+		}
 		return
 	}
 	n := cfg.N(1200, 30000)
@@ -170,6 +346,62 @@ func runC10(cfg Config, r *Result) {
 		src, _, _ := GenProgram(cfg.Rng, GenOpts{MaxStmts: 8, MaxDepth: 2, Funcs: true})
 		semCase(model, r, src, SemOpts{StopAt: -1, YieldBudget: 100000}, true, "gen:")
 	}
+	// handlers and functions whose parameters / locals shadow globals, run through event histories
+	hn := cfg.N(500, 10000)
+	for i := 0; i < hn; i++ {
+		src, evs := c10Handlers(cfg.Rng)
+		d := semCase(model, r, src, SemOpts{StopAt: -1, YieldBudget: 100000, Events: evs}, true, "handlers:")
+		if d.Impl.ParseErr != "" && len(r.Notes) < 5 {
+			r.Note("parse error (handlers): %s", d.Impl.ParseErr)
+		}
+		if i < 1 {
+			r.Sample(map[string]any{"program": src, "events": evs})
+		}
+		c10HandlerOracle(r, src, evs, d)
+	}
 }
 
 func init() { register("C10", runC10) }
+
+// c10ReplayEvents decodes the "events" of a recorded input.
+func c10ReplayEvents(in map[string]any) []SemEvent {
+	var evs []SemEvent
+	l, _ := in["events"].([]any)
+	for _, e := range l {
+		m, ok := e.(map[string]any)
+		if !ok {
+			continue
+		}
+		name, _ := m["Name"].(string)
+		ps, _ := m["Params"].([]any)
+		evs = append(evs, SemEvent{Name: name, Params: ps})
+	}
+	return evs
+}
+
+// c10HandlerOracle is the property's own check on the implementation alone: when the top-level run and every event end
+// normally, delivering the events has the effects of calling the handlers, rewritten as procedures with the same parameter
+// names, in that order (a procedure call binds its parameters in a scope of its own above the globals).
+func c10HandlerOracle(r *Result, src string, evs []SemEvent, d SemDiff) {
+	if d.Impl.ParseErr != "" || d.Impl.Budget || len(d.Impl.Phases) == 0 {
+		return
+	}
+	for _, p := range d.Impl.Phases {
+		if p.Class != "ok" {
+			return
+		}
+	}
+	psrc, _ := c15AsProcedures(src, evs)
+	pr := ImplRun(psrc, SemOpts{StopAt: -1, YieldBudget: 100000})
+	if pr.ParseErr != "" || len(pr.Phases) == 0 || pr.Phases[0].Class != "ok" {
+		r.Dist("handlers:procedures-not-comparable")
+		return
+	}
+	r.Dist("handlers:procedures-compared")
+	a, b := flatTrace(d.Impl), flatTrace(pr)
+	if strings.Join(a, "\x1e") != strings.Join(b, "\x1e") {
+		r.Violate(Violation{Kind: "property", Key: "handler-scope-differs-from-procedure-scope",
+			Detail: "delivering the events does not have the effects of calling procedures with the same parameters and bodies in that order (a handler parameter or local is not confined to the handler's own scope?)",
+			Input:  map[string]any{"program": src, "events": evs, "procedures": psrc}, Impl: map[string]any{"events": a, "procedures": b}})
+	}
+}
